@@ -59,6 +59,8 @@ def generate(g, tier):
         for _ in range(r.randint(1, 5)):
             if g.chance(0.15): body.append(None)       # blank line inside the region
             else: body.append((r.choice(['', '', ' ', '  ', '   ', '\t', ' \t', unit, unit + ' ']), r.choice(['x', 'if y:', 'a  b', '"quoted"', '$v', 'REM t', 'z ']) + str(r.randint(0, 99))))
+        if g.chance(0.25):      # a line that is nothing but three quotes, indented DEEPER than the quotes that opened the text (a nested docstring): text, not the end
+            body.insert(r.randint(0, len(body)), (r.choice([' ', '  ', '\t', unit, unit + ' ', unit * 2]), '"""'))
         if all(b is None for b in body): body.append(('', 'solid'))
         lines = []
         for d in range(depth): lines.append(unit * d + 'IF TRUE')
@@ -78,6 +80,24 @@ def generate(g, tier):
             elif cmd == 'REM': pass
             else: exp.append(cmd + ' ' + (content.strip() if strip_cmd else content))
         cases.append(dict(op='compile', src=dict(text='\n'.join(lines)), meta=dict(family='verbatim', expout=exp)))
+    # a block keyword written without a block is an unknown word: plain it passes its text through, with `$` its expression is evaluated —
+    # whichever of the two spellings (or the real construct) the same compilation has met before
+    for _ in range(count(tier, 60, 600)):
+        w = r.choice(['REPEAT', 'FOR', 'WHILE', 'IF', 'FUNC', 'IGNORE', 'ELIF'])
+        e, v = r.choice([('n-1', '2'), ('n*2', '6'), ('1+1', '2'), ('"a"+n', 'a3')])
+        legacy = w in ('REPEAT', 'FOR')
+        plain_out = (f'REPEAT {e}' if legacy else f'{w} {e}')
+        plain = (f'{w} {e}', plain_out)
+        dollar = (f'${w} {e}', f'{w} {v}')
+        real = {'REPEAT': ('REPEAT 1\n    STRING body', 'STRING body'), 'FOR': ('FOR 1\n    STRING body', 'STRING body'), 'WHILE': ('WHILE k,k<1\n    STRING body', 'STRING body'),
+                'IF': ('IF TRUE\n    STRING body', 'STRING body'), 'FUNC': ('FUNC ff\n    STRING body\nRUN ff', 'STRING body'), 'IGNORE': ('IGNORE\n    raw line', 'raw line'),
+                'ELIF': ('IF FALSE\n    STRING no\nELIF TRUE\n    STRING body', 'STRING body')}[w]
+        parts = [plain, dollar, real]
+        r.shuffle(parts)
+        parts = parts[:r.randint(2, 3)]
+        if g.chance(0.3): parts = [(('IF TRUE\n' + '\n'.join('    ' + l for l in t.split('\n'))), o) for t, o in parts]
+        text = 'VAR n 3\n' + '\n'.join(t for t, _ in parts)
+        cases.append(dict(op='compile', src=dict(text=text), meta=dict(family='keyword-spellings', expout=[o for _, o in parts])))
     # $CMD expr gives CMD v ; $ENTER n ; WHITESPACE n
     for _ in range(count(tier, 150, 1500)):
         k = r.random()
